@@ -736,17 +736,10 @@ def run_list_arguments(rec, fa, rnd, ninputs):
 
 
 def minmax_ambiguous(g, args, tname):
-    """max/min legitimately differ between libraries when operands compare equal (+-0) or one is NaN: accept if the graph has such a node on this input"""
-    from ..graph import walk
-
-    has = any(e.kind in ("maximum", "minimum") for e in walk(g))
-    if not has:
-        return False
-    flat = []
-    for a in args:
-        a = numpy.asarray(a)
-        flat += [a.real, a.imag] if a.dtype.kind == "c" else [a]
-    return any(numpy.isnan(v) or v == 0 for v in flat) or len(set(float(abs(v)) for v in flat)) < len(flat)
+    """(retired) the reference interpreters implement exactly the primitive each target prints - Python's builtin max/min for the Python and NumPy
+    targets, std::max / std::min for C++ - evaluated in the printed operand order, so a result that differs at a tie (+-0) or a NaN operand is a
+    difference like any other (a seeded swap of the NumPy minimum operands hid behind the former exemption)"""
+    return False
 
 
 # ------------------------------------------------------------------------------------------------ C++ target
